@@ -63,5 +63,38 @@ def deviceloop():
     body += "/-- RemoteValueUpDown.Direction / RemoteValueStep.Direction members (name, wire value when not inverted) -/\n"
     body += "def upDown : List (String × Nat) := " + lean_list(f"({lean_str(m.name)}, {int(m.value)})" for m in RemoteValueUpDown.Direction) + "\n"
     body += "def stepDir : List (String × Nat) := " + lean_list(f"({lean_str(m.name)}, {int(m.value)})" for m in RemoteValueStep.Direction) + "\n"
+    body += _climate_mode()
     body += "\nend XknxVerif.Generated.DeviceLoop\n"
     return body
+
+
+def _climate_mode():
+    from xknx import XKNX
+    from xknx.devices import ClimateMode
+    from xknx.dpt import DPTHVACContrMode, DPTHVACMode
+    from xknx.dpt.dpt_20 import HVACControllerMode, HVACOperationMode
+    from xknx.remote_value.remote_value_climate_mode import RemoteValueBinaryHeatCool, RemoteValueHVACStatus
+
+    x = XKNX()
+    cm = ClimateMode(x, "m", group_address_operation_mode_comfort="1/1/1", group_address_operation_mode_economy="1/1/2",
+                     group_address_operation_mode_protection="1/1/3", group_address_operation_mode_standby="1/1/4",
+                     group_address_heat_cool="1/1/5")
+    st = RemoteValueHVACStatus(x, group_address="1/1/6")
+    names = lambda ms: lean_list(str(int(m.value)) for m in ms)
+    b = "/-- HVACOperationMode / HVACControllerMode members (name, wire value) -/\n"
+    b += "def opModes : List (String × Nat) := " + lean_list(f"({lean_str(m.name)}, {int(m.value)})" for m in HVACOperationMode) + "\n"
+    b += "def ctModes : List (String × Nat) := " + lean_list(f"({lean_str(m.name)}, {int(m.value)})" for m in HVACControllerMode) + "\n"
+    b += "/-- what the mode objects declare as supported: DPT 20.102 / 20.105 valid values, the status object, the heat/cool bit -/\n"
+    b += f"def opRvModes : List Nat := {names(DPTHVACMode.get_valid_values())}\n"
+    b += f"def ctRvModes : List Nat := {names(DPTHVACContrMode.get_valid_values())}\n"
+    b += f"def statusOpModes : List Nat := {names(st.supported_operation_modes())}\n"
+    b += f"def statusCtModes : List Nat := {names(st.supported_controller_modes())}\n"
+    b += f"def heatCoolCtModes : List Nat := {names(cm.remote_value_heat_cool.supported_controller_modes())}\n"
+    b += "/-- the binary operation-mode objects of ClimateMode in iteration order: own mode -/\n"
+    order = [rv for rv in cm._iter_remote_values() if hasattr(rv, "operation_mode")]
+    b += f"def binaryOrder : List Nat := {names([rv.operation_mode for rv in order])}\n"
+    b += f"def heatCoolOwn : Nat := {int(cm.remote_value_heat_cool.controller_mode.value)}\n"
+    b += f"def initialOp : Nat := {int(cm.operation_mode.value)}\ndef initialCt : Nat := {int(cm.controller_mode.value)}\n"
+    b += f"def heat : Nat := {int(HVACControllerMode.HEAT.value)}\ndef cool : Nat := {int(HVACControllerMode.COOL.value)}\n"
+    b += f"def standby : Nat := {int(HVACOperationMode.STANDBY.value)}\n"
+    return b
